@@ -583,9 +583,14 @@ def oracle_expected(comp, bank, style, energy, power, log, pad, window, x):
     from pydrobert.speech import config
 
     S = comp.frame_shift
-    M = comp.frame_length - S + 1
     sup = bank.supports
     centered = style == "centered"
+    # the longest filter's support, from the bank alone (not from what the computer reports about itself):
+    # centred: the widest support; causal: from the earliest left end (or sample 0) to the latest right end
+    if centered:
+        M = max(r - l for l, r in sup)
+    else:
+        M = max(r for l, r in sup) + max([0] + [-l for l, r in sup])
     tr = M // 2 if centered else max([0] + [-l for l, r in sup])
     D = dft_size_of(comp, bank, pad)
     o = tr - S if centered else tr
